@@ -64,6 +64,13 @@ Theorem C01_space_sequence_refuted :
 Proof. exact space_sequence_outside_class_rewritten. Qed.
 Print Assumptions C01_space_sequence_refuted.
 
+(* refuted: the final passes do not keep the meaning of a dot (known finding C01-dotall-stripped):
+   "any character including newline" and "any character but newline" come out the same *)
+Theorem C01_dot_flag_groups_refuted :
+  final_passes ($"a(?s:.)b") = Ok ($"a.b") /\ final_passes ($"a(?-s:.)b") = Ok ($"a.b").
+Proof. exact dot_flag_groups_stripped. Qed.
+Print Assumptions C01_dot_flag_groups_refuted.
+
 (* THE REFINEMENT STATEMENT.  For every program (any nesting of blocks, any markers, any stored
    names, cmdline blocks, prefixes, suffixes, flags), every optimiser [join] and every notion of
    meaning (A, alternation, concatenation, [Den] for texts, [DenSeq] for texts that may be
